@@ -148,6 +148,8 @@ class ManualExecutor(Executor):
         self.fail_submits = 0           # the next n submit() calls raise TypeError
         self.precancel_next = 0         # the next n submit() calls return an already cancelled future
         self.drain_on_shutdown = False  # shutdown(wait=True) runs what is still queued (like joining a pool)
+        self.lenient_shutdown = False   # like a user-written Executor that only overrides submit(): the
+                                        # inherited shutdown() is a no-op and submit() keeps accepting
         self.mode = mode
         self.forget = forget            # drop fn/args/future of finished items (like real pools do)
         self.lab = label
@@ -186,6 +188,8 @@ class ManualExecutor(Executor):
     def shutdown(self, wait=True, **kwargs):
         self.mc.emit("base.shutdown", b=self.lab, wait=wait, kwargs=brief(kwargs))
         self.shutdowns.append((wait, dict(kwargs)))
+        if self.lenient_shutdown:
+            return
         self.down = True
         if kwargs.get("cancel_futures") and self.honour_cancel_futures:
             for it in self.items:
